@@ -258,6 +258,8 @@ class Eval:
         if op in ("+", "-", "*"):
             if isinstance(l, I) and isinstance(r, I) and op == "-":
                 return I(band(l.b, bnot(r.b)))
+            if isinstance(l, PS) and isinstance(r, PS) and op == "+":
+                return PS(bor(l.ij, r.ij), bor(l.ji, r.ji))          # list concatenation of edge lists (membership)
             return lift(eop(op), l, r)
         if op in ("&", "|", "^"):
             f = {"&": band, "|": bor, "^": lambda a, b: None if nzb(a) is None or nzb(b) is None else nzb(a) != nzb(b)}[op]
@@ -408,6 +410,12 @@ class Eval:
                     return E(b.sign)
                 return E(a.sign) if a.sign == b.sign else E(TOP)
             return lift(sel3, c_, a_, b_)
+        if d == "numpy.flatnonzero" and len(args) == 1:
+            x = self.ev(args[0])
+            if isinstance(x, (V, I)):
+                return I(nzb(x.e) if isinstance(x, V) else x.b)      # = np.where(x)[0] for a vector
+        if d == "numpy.nonzero" and len(args) == 1:
+            return self.t_ext(("ext", "numpy.where", args, ()))
         if d in ("set", "list", "tuple", "frozenset", "numpy.array", "numpy.asarray", "sorted", "iter") and len(args) == 1:
             x = self.ev(args[0])
             if isinstance(x, (I, PS, MAP, LISTOF, M, V)):
@@ -441,6 +449,8 @@ class Eval:
                     return PS(band(ps.ij, keep_ij), band(ps.ji, keep_ji))
         if d in ("numpy.sum", "numpy.count_nonzero") and args:
             x = self.ev(args[0])
+            if d == "numpy.count_nonzero" and isinstance(x, M):
+                x = lift(lambda e: b2e(nzb(e)), x)            # counts the non-zero entries, whatever their value
             if isinstance(x, M):
                 return CNT(x, axis_kind(args, kwargs, 1))
         if d in ("numpy.any", "numpy.all") and len(args) == 1:
@@ -760,9 +770,15 @@ def rule_decompositions(prog, rep, rule="PW.table"):
         rep.unk(rule, where_of(prog.func(q)), "undirected_edges left the fragment: %s" % e.why)
     q = "sempler.utils.edge_weights"
     try:
-        f, rows = matrix_table(prog, q, "W")
+        try:
+            f, rows = matrix_table(prog, q, "W")
+        except Inconclusive as e0:
+            if "atom g" not in str(e0.why):
+                raise
+            f, rows = matrix_table(prog, q, "W", atoms=("g",))       # the key list depends on i > j: both cases
         bad = []
-        for (pair,), r in rows.items():
+        for key_, r in rows.items():
+            pair = key_[0]
             if not isinstance(r, MAP) or r.ps.ij is not A_(pair[0]) or r.ps.ji is not A_(pair[1]) or not _keep(r.e_ij, "a") \
                     or not _keep(r.e_ji, "b"):
                 bad.append((pair, show(r)))
@@ -814,7 +830,7 @@ def rule_counts(prog, rep, rule="PW.count"):
             cnt_side = None
             for k, s in enumerate(sides):
                 if any(isinstance(x, tuple) and x[:1] == ("param",) and x[1] == mp for x in walk(s)) and \
-                        any(isinstance(x, tuple) and x[0] in ("method", "ext") and ("sum" in (x[2] if x[0] == "method" else x[1])) for x in walk(s)):
+                        any(isinstance(x, tuple) and x[0] in ("method", "ext") and any(w_ in (x[2] if x[0] == "method" else x[1]) for w_ in ("sum", "count_nonzero")) for x in walk(s)):
                     cnt_side = k
             if cnt_side is None:
                 raise Inconclusive("no counted side found")
